@@ -17,7 +17,9 @@ Open Scope string_scope.
 (* ------------------------------------------------------------------------------------------------------------ *)
 
 (* A template accepted by the static checker renders without error on every value of the schema that satisfies the
-   non-nil facts: any status value, any number of partitions, Maxlag nil or not, commit lags nil or not. *)
+   non-nil facts: any status value, any number of partitions, Maxlag nil or not, commit lags nil or not.  The checker
+   is flow-sensitive for nil guards: inside {{if .P}} (before its else) and inside {{with .P}} (where dot is .P) the
+   path .P is known not to be "empty" in the sense of text/template's isTrue, in particular not nil. *)
 Theorem C20_typecheck_sound : forall sch t facts,
   typecheck sch t facts = true ->
   forall d, has_schema sch d -> satisfies facts d = true -> exists out, exec sch t d = Ok out.
@@ -127,21 +129,20 @@ Theorem C20_shipped_templates_render : forall name t, In (name, t) all_templates
 Proof. exact (shipped_render burrow_schema all_templates C20_table_embed C20_table_all_render). Qed.
 Print Assumptions C20_shipped_templates_render.
 
-(* the shipped HTTP and Slack templates render to well-formed JSON for JSON-safe names.
-   Full statement: as below without the finiteness conjuncts of group_safe.
-   _partial: group_safe also asks for finite completeness ratios; the evaluator only divides by positive counts
-   (caching.go:246-250, 295), deriving finiteness from Eval.v (Flocq division) is not done. *)
-Theorem C20_shipped_json_partial : forall name,
+(* the shipped HTTP and Slack templates render to well-formed JSON for JSON-safe names, for every reply of the
+   evaluator about a group of at most 2^24 partitions whose windows have at most 2^24 slots (float32 represents
+   integers exactly up to 2^24: the completeness ratios are then finite, F32Proofs.f32_div_correct_frac) *)
+Theorem C20_shipped_json : forall name,
   In name ["default-http-post.tmpl"; "default-http-delete.tmpl"; "default-slack-post.tmpl"; "default-slack-delete.tmpl"] ->
-  forall ts minimum allowed now g, Eval.eval_group ts minimum allowed now = Eval.Ok g ->
+  forall ts minimum allowed now g, bounded ts -> Eval.eval_group ts minimum allowed now = Eval.Ok g ->
   forall nm cl gr id ex,
     safe_string cl = true -> safe_string gr = true -> safe_string id = true ->
-    forallb (fun kv => safe_string (snd kv)) ex = true -> group_safe nm (Eval.filter_view g) = true ->
+    forallb (fun kv => safe_string (snd kv)) ex = true -> group_names_safe nm (Eval.filter_view g) = true ->
     forall out s,
       exec burrow_schema (lookup_tmpl all_templates name) (data_of burrow_schema nm cl gr id ex (Eval.filter_view g)) = Ok out ->
       inst out s -> json_valid s = true.
-Proof. exact (shipped_json_partial burrow_schema all_templates _ C20_table_embed C20_table_json). Qed.
-Print Assumptions C20_shipped_json_partial.
+Proof. exact (shipped_json burrow_schema all_templates _ C20_table_embed C20_table_json). Qed.
+Print Assumptions C20_shipped_json.
 
 (* ------------------------------------------------------------------------------------------------------------ *)
 (* Non-vacuity                                                                                                   *)
@@ -190,6 +191,36 @@ Example C20_ex_unguarded_maxlag_rejected :
   | Eval.Crash => False
   end.
 Proof. vm_compute. repeat split. Qed.
+
+(* a nil guard makes the access fine, with if and with with; a guard on the wrong path does not: the max-lag
+   partition may be an OK partition without any commit (Start nil) *)
+Definition ex_nocommit : Eval.cpart := (Eval.mkCpart [None; None] [10%Z] 0 0 7).
+
+Example C20_ex_guards :
+  let guarded_if := [NIf [CArgs (AField ["Result"; "Maxlag"]) []]
+                         [NAction [CArgs (AField ["Result"; "Maxlag"; "Topic"]) []]] [NText "none"]] in
+  let guarded_with := [NWith [CArgs (AField ["Result"; "Maxlag"]) []]
+                         [NAction [CArgs (AField ["Topic"]) []]; NText ":"; NAction [CArgs (AField ["Partition"]) []]] [NText "none"]] in
+  let wrong_guard := [NIf [CArgs (AField ["Result"; "Maxlag"]) []]
+                         [NAction [CArgs (AField ["Result"; "Maxlag"; "Start"; "Offset"]) []]] []] in
+  typecheck burrow_schema guarded_if burrow_facts = true /\
+  typecheck burrow_schema guarded_with burrow_facts = true /\
+  json_skeleton_ok burrow_schema burrow_facts ([NText "{""t"":"""] ++ guarded_with ++ [NText """}"]) = true /\
+  typecheck burrow_schema wrong_guard burrow_facts = false /\
+  match Eval.eval_group [] F32.f32_zero 0 3, Eval.eval_group [(1%Z, [ex_nocommit])] F32.f32_zero 0 3 with
+  | Eval.Ok g0, Eval.Ok g1 =>
+      let d0 := data_of burrow_schema ex_nm "c" "g" "i" [] (Eval.filter_view g0) in
+      let d1 := data_of burrow_schema ex_nm "c" "g" "i" [] (Eval.filter_view g1) in
+      exec burrow_schema guarded_if d0 = Ok [Lit "none"] /\ exec burrow_schema guarded_if d1 = Ok [Lit "orders"] /\
+      exec burrow_schema guarded_with d0 = Ok [Lit "none"] /\ exec burrow_schema guarded_with d1 = Ok [Lit "orders"; Lit ":"; NumHole] /\
+      exec burrow_schema wrong_guard d0 = Ok [] /\ exec burrow_schema wrong_guard d1 = Err "nil pointer evaluating field"
+  | _, _ => False
+  end.
+Proof. vm_compute. repeat split. Qed.
+
+(* the bound of C20_shipped_json is met by ordinary groups *)
+Example C20_ex_bounded : bounded [(1%Z, [ex_stalled; ex_ok; ex_stalled; ex_nocommit])].
+Proof. split; [vm_compute; discriminate|]. repeat constructor; vm_compute; discriminate. Qed.
 
 (* holes filled the way Go fills them: a concrete rendering of the close template is accepted by json_valid, and an
    unsafe name is exactly what breaks it (outside the property's promise) *)
